@@ -12,6 +12,8 @@ for name, f, old, new, checks in M:
     r = res.get(name, {})
     c = ", ".join(k for k, v in r.items() if v) or "-"
     m = ", ".join(k for k, v in r.items() if not v) or "-"
+    if not checks:
+        c = "(breaks no listed property: kept as a false-alarm control, every check must stay silent)"
     print(f"| {name} | {f} | {c} | {m} |")
 print("\n### Changes written independently by sub-agents that saw only the property text (`seeded/<id>/`)\n")
 print("| seed | breaks | what it needs to manifest | confirmed (tests pass, demo fails with / passes without) | caught by | missed by |")
